@@ -244,7 +244,13 @@ class CounterToken(Token, FileSystemEventHandler):
         for path in self.path.glob("*.token"):
             tf = old_cache.get(path.name)
             if tf is None:
-                tf = TokenFile(path)
+                try:
+                    tf = TokenFile(path)
+                except ValueError:
+                    # The process that created this file died before writing
+                    # it (writers hold the IPC lock): it holds nothing
+                    logging.warning("Ignoring invalid token file %s", path)
+                    continue
                 tf.watch()
                 logging.debug("Read token file %s (%d)", path, tf.count)
             else:
